@@ -133,7 +133,7 @@ async fn association(client: Arc<anytls_rs::client::Client>, target_ip: IpAddr, 
 }
 
 /// session level: the record stream cut arbitrarily across PSH frames into the real UDP handler
-async fn fragmented_stream(seed: u64, sizes: Vec<usize>, v6: bool) -> Result<(Vec<(String, String)>, u64), String> {
+async fn fragmented_stream(seed: u64, sizes: Vec<usize>, v6: bool, pause_ms: u64) -> Result<(Vec<(String, String)>, u64), String> {
     let mut rng = Rng::new(seed);
     let ip: IpAddr = if v6 { Ipv6Addr::LOCALHOST.into() } else { Ipv4Addr::new(127, 0, 0, 1).into() };
     let target = UdpSocket::bind(SocketAddr::new(ip, 0)).await.map_err(|e| e.to_string())?;
@@ -180,8 +180,12 @@ async fn fragmented_stream(seed: u64, sizes: Vec<usize>, v6: bool) -> Result<(Ve
             2 => vec![1, 2, 3],
             _ => vec![],
         };
-        for _ in 0..rng.usize(0, 3) {
-            cuts.push(rng.usize(1, rec.len()));
+        if pause_ms > 0 {
+            cuts = vec![2, 2 + len / 2]; // slow mode: prefix | first half | second half
+        } else {
+            for _ in 0..rng.usize(0, 3) {
+                cuts.push(rng.usize(1, rec.len()));
+            }
         }
         let mut c = 0;
         while c + 60000 < rec.len() {
@@ -196,7 +200,10 @@ async fn fragmented_stream(seed: u64, sizes: Vec<usize>, v6: bool) -> Result<(Ve
             if cu > p {
                 rv.peer.send(refcodec::PSH, 1, &rec[p..cu]).await.map_err(|e| e.to_string())?;
                 p = cu;
-                if rng.chance(0.3) {
+                if pause_ms > 0 && p < rec.len() {
+                    // a slow sender: the rest of the record arrives much later
+                    tokio::time::sleep(Duration::from_millis(pause_ms)).await;
+                } else if rng.chance(0.3) {
                     tokio::task::yield_now().await;
                 }
             }
@@ -317,12 +324,32 @@ pub fn run(ctx: Ctx) -> Report {
             let case = json!({"kind": "c15-fragmented", "sizes": sizes, "seed": s.to_string(), "ipv6": v6});
             rep.case(Some(hash_str(&case.to_string())));
             rep.add("fragmented_record_streams", 1);
-            match fragmented_stream(s, sizes, v6).await {
+            match fragmented_stream(s, sizes, v6, 0).await {
                 Err(e) => rep.inconclusive(e),
                 Ok((problems, compared)) => {
                     rep.add("records_compared", compared);
                     for (sym, det) in problems {
                         rep.violate("udp", if v6 { "fragmented_stream+ipv6_target" } else { "fragmented_stream+ipv4_target" }, &sym, det, case.clone());
+                    }
+                }
+            }
+        }
+        // slow senders: 1.3 s / 2.4 s between the pieces of one record (a few streams, run concurrently)
+        let mut set = tokio::task::JoinSet::new();
+        for (k, pause) in [1300u64, 1700, 1300, 2400, 600].into_iter().enumerate().take(if quick { 3 } else { 5 }) {
+            let s = rng.next();
+            set.spawn(async move { (pause, fragmented_stream(s, vec![300, 5], k % 2 == 1, pause).await) });
+        }
+        while let Some(Ok((pause, r))) = set.join_next().await {
+            let case = json!({"kind": "c15-fragmented-slow", "pause_ms_between_pieces": pause, "sizes": [300, 5]});
+            rep.case(Some(hash_str(&case.to_string())));
+            rep.add("slow_record_streams", 1);
+            match r {
+                Err(e) => rep.inconclusive(e),
+                Ok((problems, compared)) => {
+                    rep.add("records_compared", compared);
+                    for (sym, det) in problems {
+                        rep.violate("udp", "fragmented_stream+slow_sender", &sym, format!("{det} (pieces of a record {pause} ms apart)"), case.clone());
                     }
                 }
             }
@@ -342,9 +369,9 @@ pub fn run(ctx: Ctx) -> Report {
 pub fn meta() -> CheckMeta {
     CheckMeta {
         level: "exploration",
-        rule: "(1) end to end: Client::create_udp_proxy -> real Server -> a recording UDP socket bound on 127.0.0.1, a random 127.a.b.c or ::1 (plus a decoy socket on the same host); lock-step exchanges of unique datagrams (direction + sequence number + PRNG body) in both directions, sizes from {1,2,255,256,257,1472,8190-8194,16383-16385,32767,32768,65000,65506,65507} and uniform 1..65507, sequences of 1-50 (the first associations run the whole boundary list both ways); each datagram must arrive once, whole, unaltered, at the right socket, nothing extra afterwards. (2) session level: the initial request and the length-prefixed records cut arbitrarily across PSH frames (length prefix split 1+1, records split anywhere, <= 65535 per frame) and delivered in 1-3-byte / large read pieces into the real handle_udp_over_tcp; every record must come out as exactly one identical datagram, and every datagram sent back by the target must appear in the tunnel as exactly one length-prefixed record. distinct_nontrivial = distinct (target, size sequences).".into(),
+        rule: "(1) end to end: Client::create_udp_proxy -> real Server -> a recording UDP socket bound on 127.0.0.1, a random 127.a.b.c or ::1 (plus a decoy socket on the same host); lock-step exchanges of unique datagrams (direction + sequence number + PRNG body) in both directions, sizes from {1,2,255,256,257,1472,8190-8194,16383-16385,32767,32768,65000,65506,65507} and uniform 1..65507, sequences of 1-50 (the first associations run the whole boundary list both ways); each datagram must arrive once, whole, unaltered, at the right socket, nothing extra afterwards. (2) session level: the initial request and the length-prefixed records cut arbitrarily across PSH frames (length prefix split 1+1, records split anywhere, <= 65535 per frame) and delivered in 1-3-byte / large read pieces into the real handle_udp_over_tcp; also with 0.6-2.4 s pauses between the pieces of one record; every record must come out as exactly one identical datagram, and every datagram sent back by the target must appear in the tunnel as exactly one length-prefixed record. distinct_nontrivial = distinct (target, size sequences).".into(),
         assumptions: vec!["lock-step on loopback: one datagram in flight at a time, so socket-buffer loss is excluded and a 6 s wait decides 'never delivered'".into()],
-        floors: vec![("associations", 15), ("datagrams_compared", 200), ("associations_ipv6_target", 4), ("records_compared", 100)],
+        floors: vec![("associations", 15), ("datagrams_compared", 200), ("associations_ipv6_target", 4), ("records_compared", 100), ("slow_record_streams", 3)],
         exhaustive: false,
     }
 }
